@@ -213,3 +213,517 @@ Qed.
 Theorem var_len_minimal : forall v,
   (0 <= v -> is_min_ulen v (ulen0 v)) /\ is_min_slen v (slen0 v).
 Proof. intros v. split; [apply ulen_min|apply slen_min]. Qed.
+
+(* ------------------------------------------------------------------ *)
+(* 3. what each store writes                                           *)
+(* ------------------------------------------------------------------ *)
+
+Lemma bind_ok {A B} (r : result A) (f : A -> result B) b :
+  bind r f = Ok b -> exists a, r = Ok a /\ f a = Ok b.
+Proof. destruct r as [a|e]; cbn [bind]; intros H; [eauto|discriminate]. Qed.
+
+Ltac inv_bind H :=
+  let a := fresh "t" in let Ha := fresh "Ht" in
+  apply bind_ok in H; destruct H as (a & Ha & H).
+
+(* b' is b extended by the bits x and the references r *)
+Definition ext (b b' : builder) (x : list bool) (r : list cell) : Prop :=
+  b_bits b' = b_bits b ++ x /\ b_refs b' = b_refs b ++ r.
+
+Lemma ext_trans b b1 b2 x1 r1 x2 r2 :
+  ext b b1 x1 r1 -> ext b1 b2 x2 r2 -> ext b b2 (x1 ++ x2) (r1 ++ r2).
+Proof.
+  intros [H1 H2] [H3 H4]. split; [rewrite H3, H1|rewrite H4, H2]; symmetry; apply app_assoc.
+Qed.
+
+Lemma store_bits_ext b x b' : b_store_bits b x = Ok b' -> ext b b' x [].
+Proof.
+  unfold b_store_bits. destruct (_ <? _)%nat; [discriminate|]. intros [= <-].
+  split; cbn [b_bits b_refs]; [reflexivity|]. symmetry; apply app_nil_r.
+Qed.
+
+Lemma store_uint_ext b v w b' : b_store_uint b v w = Ok b' -> ext b b' (enc (Z.to_nat w) v) [].
+Proof.
+  unfold b_store_uint. intros H. inv_bind H.
+  apply int2ba_ok_enc in Ht. destruct Ht as (-> & _ & _). apply store_bits_ext. exact H.
+Qed.
+
+Lemma store_int_ext b v w b' : b_store_int b v w = Ok b' -> ext b b' (enc (Z.to_nat w) v) [].
+Proof.
+  unfold b_store_int. intros H. inv_bind H.
+  apply int2ba_ok_enc in Ht. destruct Ht as (-> & _ & _). apply store_bits_ext. exact H.
+Qed.
+
+Lemma store_ref_ext b c b' : b_store_ref b c = Ok b' -> ext b b' [] [c].
+Proof.
+  unfold b_store_ref. destruct (_ <=? _)%nat; [discriminate|]. intros [= <-].
+  split; cbn [b_bits b_refs]; [|reflexivity]. symmetry; apply app_nil_r.
+Qed.
+
+Lemma bytes_to_bits_enc bs : bytes_to_bits bs = enc_bytes bs.
+Proof. unfold bytes_to_bits, enc_bytes. apply flat_map_ext. intros a. apply to_bits_enc. Qed.
+
+Lemma store_bytes_ext b bs b' : b_store_bytes b bs = Ok b' -> ext b b' (enc_bytes bs) [].
+Proof. unfold b_store_bytes. rewrite bytes_to_bits_enc. apply store_bits_ext. Qed.
+
+Lemma zbit_length_pos v : 0 < v -> zbit_length v = Z.log2 v + 1.
+Proof.
+  destruct v as [|p|p]; try lia. intros _. unfold zbit_length.
+  destruct p; cbn [Z.abs_N N.size Pos.size Z.of_N Z.log2]; lia.
+Qed.
+
+Lemma ceil8_ulen v : 0 < v -> ceil8 (zbit_length v) = ulen v.
+Proof. intros Hv. unfold ceil8, ulen. rewrite zbit_length_pos by exact Hv. f_equal. lia. Qed.
+
+Lemma ceil8_slen v : v <> 0 ->
+  ceil8 (zbit_length (if 0 <=? v then v else - v - 1) + 1) = slen0 v.
+Proof.
+  intros Hne. unfold slen0. destruct (Z.eqb_spec v 0) as [E|_]; [contradiction|].
+  destruct (Z.leb_spec 0 v) as [Hp|Hn], (Z.ltb_spec 0 v) as [Hp'|Hn']; try lia.
+  - unfold ceil8. rewrite zbit_length_pos by lia. f_equal. lia.
+  - destruct (Z.eqb_spec v (-1)) as [->|Hne1]; [reflexivity|].
+    unfold ceil8. rewrite zbit_length_pos by lia. f_equal. lia.
+Qed.
+
+Lemma store_var_uint_ext b v k b' : 0 <= v -> b_store_var_uint b v k = Ok b' ->
+  ext b b' (enc (Z.to_nat k) (ulen0 v) ++ enc (Z.to_nat (8 * ulen0 v)) v) [].
+Proof.
+  intros Hv. unfold b_store_var_uint, ulen0. destruct (Z.eqb_spec v 0) as [->|Hne].
+  - intros H. apply store_uint_ext in H. change (enc (Z.to_nat (8 * 0)) 0) with (@nil bool).
+    rewrite app_nil_r. exact H.
+  - rewrite ceil8_ulen by lia. intros H. inv_bind H.
+    apply store_uint_ext in Ht, H. rewrite (Z.mul_comm (ulen v) 8) in H.
+    exact (ext_trans _ _ _ _ _ _ _ Ht H).
+Qed.
+
+Lemma store_var_int_ext b v k b' : b_store_var_int b v k = Ok b' ->
+  ext b b' (enc (Z.to_nat k) (slen0 v) ++ enc (Z.to_nat (8 * slen0 v)) v) [].
+Proof.
+  unfold b_store_var_int. destruct (Z.eqb_spec v 0) as [->|Hne].
+  - intros H. apply store_uint_ext in H. change (slen0 0) with 0.
+    change (enc (Z.to_nat (8 * 0)) 0) with (@nil bool). rewrite app_nil_r. exact H.
+  - rewrite ceil8_slen by exact Hne. intros H. inv_bind H.
+    apply store_uint_ext in Ht. apply store_int_ext in H. rewrite (Z.mul_comm (slen0 v) 8) in H.
+    exact (ext_trans _ _ _ _ _ _ _ Ht H).
+Qed.
+
+Lemma end_cell_ok b c : b_end_cell b = Ok c -> c = Cell ty_ordinary (b_bits b) (b_refs b).
+Proof. unfold b_end_cell. destruct (_ <=? _)%N; congruence. Qed.
+
+Lemma store_cell_ext b t bits refs b' : b_store_cell b (Cell t bits refs) = Ok b' -> ext b b' bits refs.
+Proof.
+  unfold b_store_cell. destruct (_ <? _)%nat; [discriminate|]. intros H. inv_bind H.
+  apply store_bits_ext in Ht. destruct Ht as [H1 H2]. injection H as <-.
+  split; cbn [b_bits b_refs]; [exact H1|]. rewrite H2, app_nil_r. reflexivity.
+Qed.
+
+Lemma store_address_ext b a b' : b_store_address b a = Ok b' -> ext b b' (enc_addr a) [].
+Proof.
+  destruct a as [|v len|ac wc h]; cbn [b_store_address enc_addr]; intros H.
+  - apply store_bits_ext. exact H.
+  - inv_bind H. inv_bind H. inv_bind H. inv_bind H.
+    apply store_bits_ext in Ht. apply store_uint_ext in Ht0, Ht1.
+    pose proof (ext_trans _ _ _ _ _ _ _ (ext_trans _ _ _ _ _ _ _ Ht Ht0) Ht1) as [Hb Hr].
+    apply end_cell_ok in Ht2. subst t2. apply store_cell_ext in H.
+    rewrite Hb, Hr in H. cbn [b_empty b_bits b_refs app] in H.
+    exact H.
+  - inv_bind H. inv_bind H. apply store_int_ext in Ht0. apply store_bytes_ext in H.
+    destruct ac as [[d p]|].
+    + inv_bind Ht. inv_bind Ht. apply store_bits_ext in Ht1. apply store_uint_ext in Ht2, Ht.
+      pose proof (ext_trans _ _ _ _ _ _ _ (ext_trans _ _ _ _ _ _ _
+        (ext_trans _ _ _ _ _ _ _ (ext_trans _ _ _ _ _ _ _ Ht1 Ht2) Ht) Ht0) H) as HH.
+      cbn [app] in HH. rewrite <- !app_assoc in HH. exact HH.
+    + apply store_bits_ext in Ht.
+      pose proof (ext_trans _ _ _ _ _ _ _ (ext_trans _ _ _ _ _ _ _ Ht Ht0) H) as HH.
+      exact HH.
+Qed.
+
+Lemma store1_ext b x b' : tval_ok x = true -> store1 b x = Ok b' ->
+  ext b b' (s_enc x) (s_refs_of x).
+Proof.
+  destruct x as [w v|w v|k v|k v|v|x|l|bs|c|oc|a]; cbn [store1 s_enc s_refs_of tval_ok]; intros Hok H.
+  - apply store_uint_ext; exact H.
+  - apply store_int_ext; exact H.
+  - apply store_var_uint_ext; [lia|exact H].
+  - apply store_var_int_ext; exact H.
+  - apply (store_var_uint_ext b v 4); [lia|exact H].
+  - apply store_bits_ext; exact H.
+  - apply store_bits_ext; exact H.
+  - apply store_bytes_ext; exact H.
+  - apply store_ref_ext; exact H.
+  - destruct oc as [c|]; cbn [b_store_maybe_ref] in H.
+    + inv_bind H. apply store_bits_ext in Ht. apply store_ref_ext in H.
+      exact (ext_trans _ _ _ _ _ _ _ Ht H).
+    + apply store_bits_ext; exact H.
+  - apply store_address_ext; exact H.
+Qed.
+
+Theorem store_all_bits : forall vs b0 b, Forall (fun x => tval_ok x = true) vs -> store_all b0 vs = Ok b ->
+  b_bits b = b_bits b0 ++ concat (map s_enc vs) /\ b_refs b = b_refs b0 ++ concat (map s_refs_of vs).
+Proof.
+  induction vs as [|x vs IH]; intros b0 b Hall H.
+  - cbn in H. injection H as <-. cbn [map concat]. rewrite !app_nil_r. split; reflexivity.
+  - cbn [store_all] in H. inv_bind H. inversion Hall as [|? ? Hx Hvs]; subst.
+    destruct (store1_ext _ _ _ Hx Ht) as [H1 H2]. destruct (IH _ _ Hvs H) as [H3 H4].
+    cbn [map concat]. rewrite H3, H4, H1, H2, <- !app_assoc. split; reflexivity.
+Qed.
+
+(* ------------------------------------------------------------------ *)
+(* 4. loading an encoding back                                         *)
+(* ------------------------------------------------------------------ *)
+
+Lemma firstn_app_exact {A} (l t : list A) n : length l = n -> firstn n (l ++ t) = l.
+Proof. intros <-. rewrite firstn_app, Nat.sub_diag, firstn_all. cbn [firstn]. apply app_nil_r. Qed.
+
+Lemma skipn_app_exact {A} (l t : list A) n : length l = n -> skipn n (l ++ t) = t.
+Proof. intros <-. rewrite skipn_app, Nat.sub_diag, skipn_all. reflexivity. Qed.
+
+Lemma s_skip_app l t r n : length l = n -> s_skip (mkS (l ++ t) r) n = Ok (mkS t r).
+Proof.
+  intros Hl. unfold s_skip. cbn [s_bits s_refs]. rewrite app_length.
+  destruct (Nat.ltb_spec (length l + length t) n) as [Hlt|_]; [lia|].
+  rewrite skipn_app_exact by exact Hl. reflexivity.
+Qed.
+
+Lemma load_uint_app_n n v tb r : (1 <= n)%nat -> in_uint (Z.of_nat n) v = true ->
+  s_load_uint (mkS (enc n v ++ tb) r) n = Ok (v, mkS tb r).
+Proof.
+  intros Hn Hv. unfold s_load_uint, s_preload_uint. cbn [s_bits].
+  rewrite firstn_app_exact by apply enc_length.
+  rewrite <- (Nat2Z.id n) at 1. rewrite (ba2int_enc v (Z.of_nat n) false) by (lia || exact Hv).
+  cbn [bind]. rewrite s_skip_app by apply enc_length. reflexivity.
+Qed.
+
+Lemma load_int_app_n n v tb r : (1 <= n)%nat -> in_int (Z.of_nat n) v = true ->
+  s_load_int (mkS (enc n v ++ tb) r) n = Ok (v, mkS tb r).
+Proof.
+  intros Hn Hv. unfold s_load_int, s_preload_int. cbn [s_bits].
+  rewrite firstn_app_exact by apply enc_length.
+  rewrite <- (Nat2Z.id n) at 1. rewrite (ba2int_enc v (Z.of_nat n) true) by (lia || exact Hv).
+  cbn [bind]. rewrite s_skip_app by apply enc_length. reflexivity.
+Qed.
+
+Lemma load_uint_app w v tb r : 1 <= w -> in_uint w v = true ->
+  s_load_uint (mkS (enc (Z.to_nat w) v ++ tb) r) (Z.to_nat w) = Ok (v, mkS tb r).
+Proof. intros Hw Hv. apply load_uint_app_n; [lia|]. rewrite Z2Nat.id by lia. exact Hv. Qed.
+
+Lemma load_int_app w v tb r : 1 <= w -> in_int w v = true ->
+  s_load_int (mkS (enc (Z.to_nat w) v ++ tb) r) (Z.to_nat w) = Ok (v, mkS tb r).
+Proof. intros Hw Hv. apply load_int_app_n; [lia|]. rewrite Z2Nat.id by lia. exact Hv. Qed.
+
+Lemma load_bit_app x tb r : s_load_bit (mkS (x :: tb) r) = Ok (x, mkS tb r).
+Proof. reflexivity. Qed.
+
+Lemma load_bits_app l tb r : s_load_bits (mkS (l ++ tb) r) (length l) = Ok (l, mkS tb r).
+Proof.
+  unfold s_load_bits, s_preload_bits. rewrite s_skip_app by reflexivity. cbn [bind s_bits].
+  rewrite firstn_app_exact by reflexivity. reflexivity.
+Qed.
+
+Lemma bits_to_bytes_app8 l r : length l = 8%nat -> bits_to_bytes (l ++ r) = of_bits l :: bits_to_bytes r.
+Proof.
+  intros H. do 8 (destruct l as [|? l]; [simpl in H; discriminate|]).
+  destruct l; [|simpl in H; discriminate]. reflexivity.
+Qed.
+
+Lemma bytes_to_bits_length bs : length (bytes_to_bits bs) = (length bs * 8)%nat.
+Proof.
+  unfold bytes_to_bits. induction bs as [|b bs IH]; [reflexivity|].
+  cbn [flat_map length]. rewrite app_length, to_bits_length, IH. lia.
+Qed.
+
+Lemma bits_to_bytes_to_bits bs : bytes_ok bs -> bits_to_bytes (bytes_to_bits bs) = bs.
+Proof.
+  unfold bytes_to_bits. induction 1 as [|b bs Hb Hbs IH]; [reflexivity|].
+  cbn [flat_map]. rewrite bits_to_bytes_app8 by apply to_bits_length.
+  rewrite of_bits_to_bits by exact Hb. f_equal. exact IH.
+Qed.
+
+Lemma bytes_okb_ok bs : bytes_okb bs = true -> bytes_ok bs.
+Proof.
+  unfold bytes_okb, bytes_ok. rewrite forallb_forall, Forall_forall.
+  intros H x Hx. apply N.ltb_lt. apply H. exact Hx.
+Qed.
+
+Lemma load_bytes_app bs tb r n : n = length bs -> bytes_ok bs ->
+  s_load_bytes (mkS (enc_bytes bs ++ tb) r) n = Ok (bs, mkS tb r).
+Proof.
+  intros -> Hbs. rewrite <- bytes_to_bits_enc. unfold s_load_bytes, s_preload_bytes.
+  rewrite s_skip_app by apply bytes_to_bits_length. cbn [bind s_bits].
+  rewrite firstn_app_exact by apply bytes_to_bits_length.
+  rewrite bits_to_bytes_to_bits by exact Hbs. reflexivity.
+Qed.
+
+Lemma load_var_uint_app k v tb r : 1 <= k -> 0 <= v -> ulen0 v < 2 ^ k ->
+  s_load_var false (mkS ((enc (Z.to_nat k) (ulen0 v) ++ enc (Z.to_nat (8 * ulen0 v)) v) ++ tb) r)
+    (Z.to_nat k) = Ok (v, mkS tb r).
+Proof.
+  intros Hk Hv Hlen. destruct (ulen_min v Hv) as (Hl0 & Hin & _).
+  unfold s_load_var. rewrite <- app_assoc.
+  rewrite load_uint_app by (try apply in_uint_iff; lia). cbn [bind].
+  destruct (Z.eqb_spec (ulen0 v) 0) as [E|E].
+  - rewrite E in *. apply in_uint_iff in Hin. change (2 ^ (8 * 0)) with 1 in Hin.
+    assert (v = 0) by lia. subst v. reflexivity.
+  - replace (Z.to_nat (ulen0 v) * 8)%nat with (Z.to_nat (8 * ulen0 v)) by lia.
+    apply load_uint_app; [lia|exact Hin].
+Qed.
+
+Lemma load_var_int_app k v tb r : 1 <= k -> slen0 v < 2 ^ k ->
+  s_load_var true (mkS ((enc (Z.to_nat k) (slen0 v) ++ enc (Z.to_nat (8 * slen0 v)) v) ++ tb) r)
+    (Z.to_nat k) = Ok (v, mkS tb r).
+Proof.
+  intros Hk Hlen. destruct (slen_min v) as (Hl0 & Hz & Hnz).
+  unfold s_load_var. rewrite <- app_assoc.
+  rewrite load_uint_app by (try apply in_uint_iff; lia). cbn [bind].
+  destruct (Z.eqb_spec (slen0 v) 0) as [E|E].
+  - assert (v = 0) by (destruct (Z.eq_dec v 0) as [|Hne]; [assumption|]; destruct (Hnz Hne); lia).
+    subst v. reflexivity.
+  - assert (Hne : v <> 0) by (intros ->; apply E; apply Hz; reflexivity).
+    destruct (Hnz Hne) as (Hpos & Hin & _).
+    replace (Z.to_nat (slen0 v) * 8)%nat with (Z.to_nat (8 * slen0 v)) by lia.
+    apply load_int_app; [lia|exact Hin].
+Qed.
+
+Lemma load_address_app a tb r : addr_ok a = true ->
+  s_load_address (mkS (enc_addr a ++ tb) r) = Ok (a, mkS tb r).
+Proof.
+  destruct a as [|v len|ac wc h]; cbn [addr_ok enc_addr]; intros Hok.
+  - change ([false; false] ++ tb) with (enc 2 0 ++ tb). unfold s_load_address.
+    rewrite (load_uint_app_n 2) by (reflexivity || lia). reflexivity.
+  - apply andb_prop in Hok. destruct Hok as [Hlen Hv]. rewrite <- !app_assoc.
+    change [false; true] with (enc 2 1). unfold s_load_address.
+    rewrite (load_uint_app_n 2) by (reflexivity || lia). cbn [bind].
+    change (1 =? 0) with false. change (1 =? 1) with true. cbv iota.
+    rewrite (load_uint_app_n 9) by (try apply in_uint_iff; lia). cbn [bind].
+    rewrite load_uint_app by (lia || exact Hv). reflexivity.
+  - apply andb_prop in Hok. destruct Hok as [Hok Hac].
+    apply andb_prop in Hok. destruct Hok as [Hok Hh].
+    apply andb_prop in Hok. destruct Hok as [Hwc Hlen].
+    apply bytes_okb_ok in Hh. apply Nat.eqb_eq in Hlen.
+    unfold s_load_address. destruct ac as [[d p]|].
+    + apply andb_prop in Hac. destruct Hac as [Hd Hp]. rewrite <- !app_assoc.
+      change ([true; false; true] ++ ?X) with (enc 2 2 ++ true :: X).
+      rewrite (load_uint_app_n 2) by (reflexivity || lia). cbn [bind].
+      change (2 =? 0) with false. change (2 =? 1) with false. change (2 =? 2) with true. cbv iota.
+      rewrite load_bit_app. cbn [bind].
+      rewrite (load_uint_app_n 5) by (try apply in_uint_iff; lia). cbn [bind].
+      destruct (Z.ltb_spec d 1) as [Hd1|_]; [lia|].
+      rewrite load_uint_app by (lia || exact Hp). cbn [bind].
+      rewrite (load_int_app_n 8) by (lia || exact Hwc). cbn [bind].
+      rewrite (load_bytes_app h tb r 32) by (congruence || exact Hh). reflexivity.
+    + rewrite <- !app_assoc.
+      change ([true; false; false] ++ ?X) with (enc 2 2 ++ false :: X).
+      rewrite (load_uint_app_n 2) by (reflexivity || lia). cbn [bind].
+      change (2 =? 0) with false. change (2 =? 1) with false. change (2 =? 2) with true. cbv iota.
+      rewrite load_bit_app. cbn [bind].
+      rewrite (load_int_app_n 8) by (lia || exact Hwc). cbn [bind].
+      rewrite (load_bytes_app h tb r 32) by (congruence || exact Hh). reflexivity.
+Qed.
+
+Lemma load1_enc x tb tr : tval_ok x = true ->
+  load1 (mkS (s_enc x ++ tb) (s_refs_of x ++ tr)) (ty_of x) = Ok (x, mkS tb tr).
+Proof.
+  destruct x as [w v|w v|k v|k v|v|x|l|bs|c|oc|a];
+    cbn [load1 ty_of s_enc s_refs_of tval_ok app]; intros Hok.
+  - apply andb_prop in Hok. destruct Hok as [Hw Hv].
+    rewrite load_uint_app by (lia || exact Hv). reflexivity.
+  - apply andb_prop in Hok. destruct Hok as [Hw Hv].
+    rewrite load_int_app by (lia || exact Hv). reflexivity.
+  - unfold s_load_var_uint. rewrite load_var_uint_app by lia. reflexivity.
+  - unfold s_load_var_int. rewrite load_var_int_app by lia. reflexivity.
+  - unfold s_load_coins, s_load_var_uint.
+    rewrite (load_var_uint_app 4 v) by (try change (2 ^ 4) with 16; lia). reflexivity.
+  - reflexivity.
+  - rewrite load_bits_app. reflexivity.
+  - rewrite load_bytes_app by (reflexivity || apply bytes_okb_ok; exact Hok). reflexivity.
+  - reflexivity.
+  - destruct oc as [c|]; reflexivity.
+  - rewrite load_address_app by exact Hok. reflexivity.
+Qed.
+
+Theorem load_all_enc : forall vs tb tr, Forall (fun x => tval_ok x = true) vs ->
+  load_all (mkS (concat (map s_enc vs) ++ tb) (concat (map s_refs_of vs) ++ tr)) (map ty_of vs)
+  = Ok (vs, mkS tb tr).
+Proof.
+  induction vs as [|x vs IH]; intros tb tr Hall; [reflexivity|].
+  inversion Hall as [|? ? Hx Hvs]; subst.
+  cbn [map concat load_all]. rewrite <- !app_assoc.
+  rewrite load1_enc by exact Hx. cbn [bind]. rewrite IH by exact Hvs. reflexivity.
+Qed.
+
+Theorem roundtrip_cell : forall vs b c, Forall (fun x => tval_ok x = true) vs ->
+  store_all b_empty vs = Ok b -> b_end_cell b = Ok c ->
+  load_all (begin_parse c) (map ty_of vs) = Ok (vs, mkS [] []).
+Proof.
+  intros vs b c Hall Hst Hend. apply end_cell_ok in Hend. subst c.
+  destruct (store_all_bits _ _ _ Hall Hst) as [Hb Hr]. cbn [begin_parse].
+  rewrite Hb, Hr. cbn [b_empty b_bits b_refs app].
+  rewrite <- (app_nil_r (concat (map s_enc vs))), <- (app_nil_r (concat (map s_refs_of vs))).
+  apply load_all_enc. exact Hall.
+Qed.
+
+(* ------------------------------------------------------------------ *)
+(* 5. preload agrees with load                                         *)
+(* ------------------------------------------------------------------ *)
+
+Lemma rmap_ok {A B} (f : A -> B) r b : rmap f r = Ok b -> exists a, r = Ok a /\ b = f a.
+Proof. destruct r as [a|e]; cbn [rmap]; intros H; [injection H as <-; eauto|discriminate]. Qed.
+
+Lemma s_skip_ok s n s' : s_skip s n = Ok s' -> s' = mkS (skipn n (s_bits s)) (s_refs s).
+Proof. unfold s_skip. destruct (_ <? _)%nat; congruence. Qed.
+
+Lemma load_uint_inv s n v s' : s_load_uint s n = Ok (v, s') ->
+  s_preload_uint s n = Ok v /\ s' = mkS (skipn n (s_bits s)) (s_refs s).
+Proof.
+  unfold s_load_uint. intros H. inv_bind H. inv_bind H. injection H as <- <-.
+  split; [exact Ht|apply s_skip_ok; exact Ht0].
+Qed.
+
+Lemma load_int_inv s n v s' : s_load_int s n = Ok (v, s') ->
+  s_preload_int s n = Ok v /\ s' = mkS (skipn n (s_bits s)) (s_refs s).
+Proof.
+  unfold s_load_int. intros H. inv_bind H. inv_bind H. injection H as <- <-.
+  split; [exact Ht|apply s_skip_ok; exact Ht0].
+Qed.
+
+Lemma load_bit_inv s x s' : s_load_bit s = Ok (x, s') ->
+  s_preload_bit s = Ok x /\ s' = mkS (skipn 1 (s_bits s)) (s_refs s).
+Proof.
+  unfold s_load_bit. intros H. inv_bind H. inv_bind H. injection H as <- <-.
+  split; [exact Ht|apply s_skip_ok; exact Ht0].
+Qed.
+
+Lemma load_var_preload signed s bl v s' : s_load_var signed s bl = Ok (v, s') ->
+  s_preload_var signed s bl = Ok v.
+Proof.
+  unfold s_load_var, s_preload_var. intros H. inv_bind H. destruct t as [len s1].
+  apply load_uint_inv in Ht. destruct Ht as [Hp ->]. rewrite Hp. cbn [bind].
+  destruct (len =? 0).
+  - injection H as <- _. reflexivity.
+  - rewrite <- firstn_skipn_comm. destruct signed.
+    + apply load_int_inv in H. destruct H as [H _]. exact H.
+    + apply load_uint_inv in H. destruct H as [H _]. exact H.
+Qed.
+
+Theorem peek_agrees : forall s t v s', load1 s t = Ok (v, s') -> preload1 s t = Ok v.
+Proof.
+  intros s t v s' H. destruct t as [w|w|k|k| | |n|n| | | ]; cbn [load1 preload1] in *;
+    apply rmap_ok in H; destruct H as ([a s0] & Ha & Hv); injection Hv as -> ->.
+  - apply load_uint_inv in Ha. destruct Ha as [-> _]. reflexivity.
+  - apply load_int_inv in Ha. destruct Ha as [-> _]. reflexivity.
+  - apply load_var_preload in Ha. rewrite Ha. reflexivity.
+  - apply load_var_preload in Ha. rewrite Ha. reflexivity.
+  - apply load_var_preload in Ha. rewrite Ha. reflexivity.
+  - apply load_bit_inv in Ha. destruct Ha as [-> _]. reflexivity.
+  - unfold s_load_bits in Ha. inv_bind Ha. injection Ha as <- _. reflexivity.
+  - unfold s_load_bytes in Ha. inv_bind Ha. injection Ha as <- _. reflexivity.
+  - unfold s_load_ref in Ha. destruct (s_refs s) as [|r rs]; [discriminate|].
+    injection Ha as <- _. reflexivity.
+  - unfold s_load_maybe_ref in Ha. inv_bind Ha. destruct t as [x s1].
+    apply load_bit_inv in Ht. destruct Ht as [Hp ->]. unfold s_preload_maybe_ref.
+    rewrite Hp. cbn [bind rmap]. destruct x.
+    + inv_bind Ha. destruct t as [r s2]. unfold s_load_ref in Ht. cbn [s_refs] in Ht.
+      destruct (s_refs s) as [|r' rs]; [discriminate|].
+      injection Ht as <- _. injection Ha as <- _. reflexivity.
+    + injection Ha as <- _. reflexivity.
+  - unfold s_preload_address. rewrite Ha. reflexivity.
+Qed.
+
+(* ------------------------------------------------------------------ *)
+(* 6. snake strings                                                    *)
+(* ------------------------------------------------------------------ *)
+
+Lemma avail_empty : ((1023 - length (b_bits b_empty)) / 8 = 127)%nat.
+Proof. vm_compute. reflexivity. Qed.
+
+Lemma store_bytes_empty bs : (length bs <= 127)%nat ->
+  b_store_bytes b_empty bs = Ok (mkB (bytes_to_bits bs) []).
+Proof.
+  intros H. unfold b_store_bytes, b_store_bits. cbn [b_empty b_bits b_refs length app].
+  rewrite bytes_to_bits_length.
+  match goal with |- context [(?a <? ?b)%nat] => destruct (Nat.ltb_spec a b) as [Hlt|_] end;
+    [lia|reflexivity].
+Qed.
+
+Lemma load_snake_leaf f bs : bytes_ok bs -> s_load_snake (S f) (mkS (bytes_to_bits bs) []) = Ok bs.
+Proof.
+  intros Hbs. cbn [s_load_snake s_bits s_refs].
+  rewrite bytes_to_bits_length, Nat.mod_mul, Nat.div_mul by lia.
+  cbn [Nat.eqb negb]. unfold s_preload_bytes. cbn [s_bits].
+  rewrite <- bytes_to_bits_length, firstn_all, bits_to_bytes_to_bits by exact Hbs. reflexivity.
+Qed.
+
+Lemma store_ref_empty bits c : b_store_ref (mkB bits []) c = Ok (mkB bits [c]).
+Proof. reflexivity. Qed.
+
+Ltac inv_bind_as H a Ha := apply bind_ok in H; destruct H as (a & Ha & H).
+
+Theorem snake_roundtrip : forall fuel bs b, bytes_ok bs ->
+  b_store_snake fuel b_empty bs = Ok b ->
+  s_load_snake fuel (mkS (b_bits b) (b_refs b)) = Ok bs.
+Proof.
+  induction fuel as [|f IH]; intros bs b Hbs H; [discriminate|].
+  cbn [b_store_snake] in H. destruct bs as [|x bs'].
+  - injection H as <-. reflexivity.
+  - remember (x :: bs') as bs eqn:Ebs. rewrite avail_empty in H.
+    destruct (Nat.leb_spec (length bs) 127) as [Hle|Hgt].
+    + rewrite store_bytes_empty in H by exact Hle. injection H as <-. cbn [b_bits b_refs].
+      apply load_snake_leaf. exact Hbs.
+    + assert (Hl1 : length (firstn 127 bs) = 127%nat) by (rewrite firstn_length; lia).
+      assert (Hsplit : firstn 127 bs ++ skipn 127 bs = bs) by apply firstn_skipn.
+      rewrite <- Hsplit in Hbs. apply Forall_app in Hbs. destruct Hbs as [Hb1 Hb2].
+      set (hd := firstn 127 bs) in *. set (tl := skipn 127 bs) in *. clearbody hd tl.
+      inv_bind_as H b1 Hb1s. rewrite store_bytes_empty in Hb1s by lia. injection Hb1s as <-.
+      inv_bind_as H inner Hinner. inv_bind_as H c Hc. apply end_cell_ok in Hc. subst c.
+      rewrite store_ref_empty in H. injection H as <-.
+      pose proof (IH _ _ Hb2 Hinner) as Hin.
+      cbn [s_load_snake s_bits s_refs begin_parse b_bits b_refs].
+      rewrite bytes_to_bits_length, Nat.mod_mul, Nat.div_mul by lia.
+      cbn [Nat.eqb negb]. rewrite Hin. cbn [bind]. unfold s_preload_bytes. cbn [s_bits].
+      rewrite <- bytes_to_bits_length, firstn_all, bits_to_bytes_to_bits by exact Hb1.
+      rewrite Hsplit. reflexivity.
+Qed.
+
+Lemma s_depth_leaf t bits : s_depth (Cell t bits []) = 0%N.
+Proof. reflexivity. Qed.
+
+Lemma s_depth_single t bits c : s_depth (Cell t bits [c]) = (1 + s_depth c)%N.
+Proof.
+  change (s_depth (Cell t bits [c])) with (1 + maxl [s_depth c])%N.
+  unfold maxl. cbn [fold_right]. lia.
+Qed.
+
+Lemma snake_store_ok : forall n fuel bs, (length bs <= 127 * n)%nat -> (n <= 1024)%nat ->
+  (n < fuel)%nat ->
+  exists b, b_store_snake fuel b_empty bs = Ok b /\
+            (s_depth (Cell ty_ordinary (b_bits b) (b_refs b)) <= N.of_nat n)%N.
+Proof.
+  induction n as [|m IH]; intros fuel bs Hlen Hn Hfuel.
+  - destruct fuel as [|f]; [lia|]. destruct bs as [|x bs']; [|cbn [length] in Hlen; lia].
+    exists b_empty. split; [reflexivity|]. cbn [b_empty b_bits b_refs]. rewrite s_depth_leaf. lia.
+  - destruct fuel as [|f]; [lia|]. destruct bs as [|x bs'].
+    + exists b_empty. split; [reflexivity|]. cbn [b_empty b_bits b_refs]. rewrite s_depth_leaf. lia.
+    + cbn [b_store_snake]. rewrite avail_empty. remember (x :: bs') as bs eqn:Ebs.
+      destruct (Nat.leb_spec (length bs) 127) as [Hle|Hgt].
+      * rewrite store_bytes_empty by exact Hle. eexists. split; [reflexivity|].
+        cbn [b_bits b_refs]. rewrite s_depth_leaf. lia.
+      * assert (Hl1 : length (firstn 127 bs) = 127%nat) by (rewrite firstn_length; lia).
+        assert (Hl2 : length (skipn 127 bs) = (length bs - 127)%nat) by apply skipn_length.
+        set (hd := firstn 127 bs) in *. set (tl := skipn 127 bs) in *. clearbody hd tl.
+        rewrite store_bytes_empty by lia. cbn [bind].
+        destruct (IH f tl) as (inner & Hin & Hd); [lia|lia|lia|].
+        rewrite Hin. cbn [bind]. unfold b_end_cell.
+        set (c := Cell ty_ordinary (b_bits inner) (b_refs inner)) in *. cbv zeta.
+        destruct (N.leb_spec 1024 (s_depth c)) as [Hbig|_]; [lia|]. cbn [bind].
+        rewrite store_ref_empty.
+        eexists. split; [reflexivity|]. cbn [b_bits b_refs]. rewrite s_depth_single. lia.
+Qed.
+
+Theorem snake_total : forall bs, bytes_ok bs -> (length bs <= 127 * 1024)%nat ->
+  exists b, b_store_snake (S (length bs)) b_empty bs = Ok b.
+Proof.
+  intros bs _ Hlen.
+  destruct (snake_store_ok ((length bs + 126) / 127) (S (length bs)) bs) as (b & Hb & _);
+    [lia|lia|lia|].
+  exists b. exact Hb.
+Qed.
